@@ -56,7 +56,10 @@ structure RefState (F : Type) where
   /-- return address and the caller's registers -/
   frames : List (Nat × List Nat)
   trace : List HostCall
+  /-- the list under construction (the token is the number of items so far) -/
+  building : Option (Nat × List Nat)
   jumps : List Nat
+  instrs : List (Instruction × Option Nat)
   instrLen : Nat
   cursor : Nat
 
@@ -77,6 +80,29 @@ def symParts (cells : List (RCell F)) (a : Nat) : Option (List (SymPart F)) :=
   | some (.symList ps) => some ps
   | _ => none
 
+/-- an indexed getter over the sequence `xs`: integer indexes from 0; a negative or fractional index is a
+`Data::Error`, an index past the end is `None` -/
+def idxItem {β : Type} (xs : Option (List β)) (i : Number F) : Outcome (Option β) :=
+  match xs, i with
+  | some xs, .int i => if i < 0 then .err .data else .ok xs[i.toNat]?
+  | _, _ => .err .data
+
+def idxLen {β : Type} (xs : Option (List β)) : Outcome Nat :=
+  match xs with
+  | some xs => .ok xs.length
+  | none => .err .data
+
+/-- address of the value of the first item that is a pair keyed by the symbol `sym` -/
+def findKeyed (cells : List (RCell F)) (sym : Nat) : List Nat → Option Nat
+  | [] => none
+  | item :: rest =>
+    match cells[item]? with
+    | some (.pair l r) =>
+      (match cells[l]? with
+       | some (.sym k) => if k == sym then some r else findKeyed cells sym rest
+       | _ => findKeyed cells sym rest)
+    | _ => findKeyed cells sym rest
+
 def RefState.add (c : RCell F) : RM (RefState F) Nat := fun st =>
   .ok (st.cells.length, { st with cells := st.cells ++ [c] })
 
@@ -92,9 +118,24 @@ def refStore (h : RefHost F) : RStore F (RefState F) where
   vals st := st.vals
   trace st := st.trace
   jumpTable st j := st.jumps[j]?
+  instruction st i := st.instrs[i]?
+  frames st := st.frames
+  setInstructionCursor n := fun st => .ok ((), { st with cursor := n })
   instrLen st := st.instrLen
   cursor st := st.cursor
   dataLen st := st.cells.length
+  listLen st a := idxLen ((refView st.cells).listItems a)
+  charLen st a := idxLen ((refView st.cells).chars a)
+  byteLen st a := idxLen ((refView st.cells).bytes a)
+  symLen st a := idxLen ((refView st.cells).symList a)
+  listItem st a i := idxItem ((refView st.cells).listItems a) i
+  charItem st a i := idxItem ((refView st.cells).chars a) i
+  byteItem st a i := idxItem ((refView st.cells).bytes a) i
+  symItem st a i := idxItem ((refView st.cells).symList a) i
+  listItemWithSymbol st a sym :=
+    match (refView st.cells).listItems a with
+    | some items => .ok (findKeyed st.cells sym items)
+    | none => .err .data
   addUnit := RefState.add .unit
   addTrue := RefState.add .tru
   addFalse := RefState.add .fls
@@ -108,6 +149,20 @@ def refStore (h : RefHost F) : RStore F (RefState F) where
   addRange s e := RefState.add (.range s e)
   addSlice v r := RefState.add (.slice v r)
   addPartial f x := RefState.add (.part f x)
+  building st := st.building
+  startList _ := fun st => .ok (0, { st with building := some (0, []) })
+  addToList t a := fun st =>
+    match st.building with
+    | some (t0, items) =>
+      if t0 == t then .ok (t + 1, { st with building := some (t + 1, items ++ [a]) }) else .err .data
+    | none => .err .data
+  endList t := fun st =>
+    match st.building with
+    | some (t0, items) =>
+      if t0 == t then
+        .ok (st.cells.length, { st with cells := st.cells ++ [.list items], building := none })
+      else .err .data
+    | none => .err .data
   mergeToSymbolList l r := fun st =>
     match symParts st.cells l, symParts st.cells r with
     | some a, some b => RefState.add (.symList (a ++ b)) st
@@ -137,6 +192,7 @@ def refStore (h : RefHost F) : RStore F (RefState F) where
 
 /-- a store holding `cells`, registers `regs`, nothing else -/
 def RefState.init (cells : List (RCell F)) (regs : List Nat) : RefState F :=
-  { cells := cells, regs := regs, vals := [], frames := [], trace := [], jumps := [], instrLen := 0, cursor := 0 }
+  { cells := cells, regs := regs, vals := [], frames := [], trace := [], building := none, jumps := [],
+    instrs := [], instrLen := 0, cursor := 0 }
 
 end Garnish.Model.Runtime
